@@ -72,8 +72,19 @@ def fr(x):
     return Fraction(x) if not isinstance(x, float) else Fraction(*x.as_integer_ratio())
 
 
+DTYPES = {'float': float, 'int': int, 'bool': bool, 'uint8': np.uint8, 'int32': np.int32}
+
+
 def mask_np(c):
-    return np.array([[float(fr(v)) for v in row] for row in c['mask']], dtype=float)
+    """the mask as the caller holds it: the dtype is part of the case (float, int, bool, uint8, int32)"""
+    a = np.array([[float(fr(v)) for v in row] for row in c['mask']], dtype=float)
+    return a.astype(DTYPES[c.get('mask_dtype', 'float')])
+
+
+def coeff_vals(c):
+    """the requested coefficients as floats, scale included"""
+    sc = fr(c.get('scale', 1))
+    return [float(fr(x) * sc) for x in c['coeffs']]
 
 
 def coords(c, mask):
@@ -110,16 +121,16 @@ def prep(c):
     mask = mask_np(c)
     rho, theta = coords(c, mask)
     nrm = bool(c.get('nrm', True))
-    scale = float(fr(c.get('scale', 1)))
+    scale = fr(c.get('scale', 1))
     p = {'mask': mask, 'rho': rho, 'theta': theta, 'nrm': nrm}
+    w = [float(x * scale) for x in scatter(c['modes'], c['coeffs'], c.get('extra'))]
     if c['op'] == 'compose':
-        p['w'] = [float(x) * scale for x in scatter(c['modes'], c['coeffs'], c.get('extra'))]
+        p['w'] = w
     else:
-        w = [float(x) for x in scatter(c['modes'], c['coeffs'], c.get('extra'))]
-        y = lentil.zernike_compose(mask, w, c.get('ynrm', True), rho, theta)
+        # the OPD is composed from coefficients that already carry the scale (nanometres in metres, ...)
+        y = np.asarray(lentil.zernike_compose(mask, w, c.get('ynrm', True), rho, theta), dtype=float)
         if c.get('noise'):
-            y = y + np.array(c['noise'], dtype=float) / 8.0
-        y = y * scale
+            y = y + np.array(c['noise'], dtype=float) / 8.0 * float(scale)
         if c.get('opd_shape') == 'transposed':
             y = np.ascontiguousarray(y.T)
         elif c.get('opd_shape') == 'short':
@@ -141,8 +152,19 @@ def mode_samples(p, j, nrm):
 
 
 def masked_basis(c, p, modes, nrm):
+    """what zernike_basis returns (vectorised), as is"""
     lentil = C.import_lentil()
-    return np.asarray(lentil.zernike_basis(p['mask'], modes, True, nrm, p['rho'], p['theta']), dtype=float)
+    return np.asarray(lentil.zernike_basis(p['mask'], modes, True, nrm, p['rho'], p['theta']))
+
+
+def stacked_modes(c, p, modes, nrm):
+    """the masked modes one by one through zernike(), collected in a float64 matrix (len(modes), pixels):
+    the reference for the oracle, independent of zernike_basis"""
+    lentil = C.import_lentil()
+    B = np.zeros((len(modes), p['mask'].size), dtype=float)
+    for i, j in enumerate(modes):
+        B[i] = np.asarray(lentil.zernike(p['mask'], j, nrm, p['rho'], p['theta']), dtype=float).ravel()
+    return B
 
 
 # ------------------------------------------------------------------ generator
@@ -219,8 +241,8 @@ def gen_modes(rng, size, tier):
 def well_conditioned(c):
     try:
         p = prep(c)
-        B = masked_basis(c, p, c['modes'], p['nrm'])
-        B1 = B if p['nrm'] else masked_basis(c, p, c['modes'], True)
+        B = stacked_modes(c, p, c['modes'], p['nrm'])
+        B1 = B if p['nrm'] else stacked_modes(c, p, c['modes'], True)
     except Exception:
         return True        # the implementation failed on a well-formed call: keep the case, run_impl/oracle report it
     if not (np.all(np.isfinite(B)) and np.all(np.isfinite(B1))):
